@@ -70,3 +70,95 @@ pub(crate) fn set_fast_load_flag(e: &mut Emulator<VHost>, v: bool) {
 }
 
 // ---- end shared helpers -----------------------------------------------------------------------
+
+// =============================================================================================
+// C05 / C16 — the frame loop with the CPU abstracted to "some instruction took d T-states"
+// =============================================================================================
+use crate::zx::controller::verif_hooks as ch;
+
+static mut GHOST_T: usize = 0; // total T-states handed out by the abstract CPU
+static mut GHOST_STEPS: usize = 0;
+static mut MAX_STEPS: usize = 4;
+
+/// Replacement for `Z80::emulate`: an arbitrary instruction of 1..frame-1 T-states.
+fn abstract_cpu_step<B: rustzx_z80::Z80Bus>(_cpu: &mut Z80, bus: &mut B) {
+    unsafe {
+        kani::assume(GHOST_STEPS < MAX_STEPS);
+        GHOST_STEPS += 1;
+        let d: usize = kani::any();
+        kani::assume(d >= 1 && d < 69888);
+        GHOST_T += d;
+        bus.wait_internal(d);
+    }
+}
+
+fn frame_loop_body(max_steps: usize) {
+    unsafe {
+        MAX_STEPS = max_steps;
+    }
+    let m = any_machine();
+    let f = ch::spec_frame_len(m);
+    let mut e = mk_emulator(m, FbCtx { wx: 0, wy: 0 });
+    let n: usize = kani::any();
+    kani::assume(n >= 1 && n <= 2);
+    e.set_speed(EmulationMode::FrameCount(n));
+    let t0: usize = kani::any();
+    kani::assume(t0 < f);
+    e.controller.frame_clocks = t0;
+    unsafe {
+        GHOST_T = 0;
+        GHOST_STEPS = 0;
+    }
+    let r = e.emulate_frames(Duration::from_millis(kani::any::<u16>() as u64));
+    match r {
+        Ok(info) => {
+            kani::assert(info.stop_reason == EmulationStopReason::Completed, "c05.loop.completed");
+            kani::assert(e.controller.frames_count() == n, "c05.loop.exact_frame_count");
+            unsafe {
+                kani::assert(t0 + GHOST_T == n * f + e.controller.frame_clocks, "c05.loop.total_time_is_frames_times_length_plus_offset");
+            }
+            kani::assert(e.controller.frame_clocks < f, "c05.loop.clock_in_frame");
+        }
+        Err(_) => kani::assert(false, "c05.loop.no_error"),
+    }
+    unsafe {
+        kani::cover!(n == 2 && GHOST_STEPS == MAX_STEPS && e.controller.frame_clocks == 3, "two frames in the maximum number of steps, 3 T overrun");
+        kani::cover!(n == 1 && GHOST_STEPS == 1, "one frame in one step");
+    }
+}
+
+// @harness
+// @prop C05 C16
+// @tier quick
+// @timeout 900
+// @fn Emulator::emulate_frames; ZXController::wait_internal; ZXController::new_frame; ZXController::frames_count; ZXController::reset_frame_counter; ZXController::take_events
+// @sym machine, start frame T-state, requested frame count 1..2, up to 4 instruction lengths (each 1..69887 T), stopwatch readings
+// @assert emulate_frames(FrameCount(n)) returns Completed after exactly n frame ends; total T-states executed == n*frame + clock_after - clock_before (nothing lost or invented at frame ends); no error
+// @bound at most 4 abstract CPU steps per call (paths with more are cut by an assume), n <= 2
+// @stub Z80::emulate -> abstract step advancing the bus clock by a symbolic d; ZXScreen::process_clocks -> no-op
+// @replay solver-only
+#[kani::proof]
+#[kani::unwind(6)]
+#[kani::stub(rustzx_z80::Z80::emulate, abstract_cpu_step)]
+#[kani::stub(crate::zx::video::screen::ZXScreen::process_clocks, ch::noop_screen_clocks)]
+fn c05_frame_loop_counts_frames() {
+    frame_loop_body(4);
+}
+
+// @harness
+// @prop C05 C16
+// @tier thorough
+// @timeout 3000
+// @fn Emulator::emulate_frames; ZXController::wait_internal; ZXController::new_frame; ZXController::frames_count; ZXController::reset_frame_counter; ZXController::take_events
+// @sym machine, start frame T-state, requested frame count 1..2, up to 6 instruction lengths (each 1..69887 T), stopwatch readings
+// @assert emulate_frames(FrameCount(n)) returns Completed after exactly n frame ends; total T-states executed == n*frame + clock_after - clock_before (nothing lost or invented at frame ends); no error
+// @bound at most 6 abstract CPU steps per call (paths with more are cut by an assume), n <= 2
+// @stub Z80::emulate -> abstract step advancing the bus clock by a symbolic d; ZXScreen::process_clocks -> no-op
+// @replay solver-only
+#[kani::proof]
+#[kani::unwind(8)]
+#[kani::stub(rustzx_z80::Z80::emulate, abstract_cpu_step)]
+#[kani::stub(crate::zx::video::screen::ZXScreen::process_clocks, ch::noop_screen_clocks)]
+fn c05_frame_loop_counts_frames_6() {
+    frame_loop_body(6);
+}
